@@ -24,8 +24,69 @@ def src_lines_of(prog: GProg, src: str) -> dict:
     return out
 
 
+def topo_orders(prog: GProg, limit: int = 24):
+    """Every order of the node indices in which the describing function could list the same calls (dependencies first)."""
+    import itertools
+    n = len(prog.nodes)
+    out = []
+    for order in itertools.permutations(range(n)):
+        pos = {old: new for new, old in enumerate(order)}
+        if all(pos[dp] < pos[i] for i in range(n) for dp in prog.deps(i)):
+            out.append(list(order))
+            if len(out) >= limit:
+                break
+    return out
+
+
+def permute_prog(prog: GProg, order: list) -> GProg:
+    """The same DAG with its calls written in another (still valid) order; node k of the result is node order[k] of `prog`."""
+    from dataclasses import replace as _r
+
+    from .gprog import Edge
+    pos = {old: new for new, old in enumerate(order)}
+    nodes = []
+    for old in order:
+        nd = prog.nodes[old]
+        nodes.append(_r(nd, edges=tuple(Edge(pos[e.src], e.kind, e.path) if e.src >= 0 else e for e in nd.edges)))
+    return _r(prog, nodes=tuple(nodes), falsy=frozenset())
+
+
+_ORDER_CACHE: dict = {}
+
+
+def pulled_under_reorderings(prog: GProg, selection: dict, pulled: set):
+    """Metamorphic oracle: WHICH debug nodes a sub-graph run pulls in is left open by the properties, but it must be a function of the
+    graph and the selection, not of the order in which the describing function happens to list independent calls. Returns
+    (order, pulled there mapped back) of the first re-ordering that disagrees, else None."""
+    key = (prog.key(), repr(sorted((k, v) for k, v in selection.items() if k in ("T", "X", "R"))))
+    if key in _ORDER_CACHE:
+        return _ORDER_CACHE[key]
+    res = None
+    for order in topo_orders(prog):
+        if order == list(range(len(prog.nodes))):
+            continue
+        p2 = permute_prog(prog, order)
+        pos = {old: new for new, old in enumerate(order)}
+        d2, _ = build_gprog(p2)
+        ids2 = p2.ids()
+        kw2 = {}
+        for k_, name in (("T", "target_nodes"), ("X", "exclude_nodes"), ("R", "root_nodes")):
+            if selection.get(k_) is not None:
+                kw2[name] = [ids2[pos[i]] for i in selection[k_]]
+        got = {order[ids2.index(x)] for x in d2.executor(**kw2).graph.nodes if x in ids2 and p2.nodes[ids2.index(x)].debug}
+        if got != pulled:
+            res = (order, got)
+            break
+    _ORDER_CACHE[key] = res
+    return res
+
+
 def make_op(d, prog: GProg, selection: Optional[dict]):
     ids = prog.ids()
+    if selection is not None and selection.get("alias") == "tag_eq_id":
+        # node 1 carries the tag "n0" (the id of node 0): a string is a tag first, so node 1 is named "n0" and node 0 can only be
+        # named by reference
+        ids = [{0: d.exec_nodes[ids[0]], 1: "n0"}.get(i, x) for i, x in enumerate(ids)]
     if selection is None:
         if prog.is_async:
             async def op():
@@ -142,6 +203,14 @@ def run_case(acc, c: dict, monitors: List[Callable], nontrivial: Optional[Callab
                 if selection.get(key) is not None:
                     kw0[name] = [ids0[i] for i in selection[key]]
             pulled = {ids0.index(x) for x in d0.executor(**kw0).graph.nodes if x in ids0 and prog.nodes[ids0.index(x)].debug}
+            if acc.check_id in ("C03", "C13") and not any(nd.fn for nd in prog.nodes):
+                diff = pulled_under_reorderings(prog, selection, pulled)
+                if diff is not None:
+                    from .monitors import V as _V
+                    acc.violation(_V("debug_selection_depends_on_declaration_order",
+                                     f"executor({kw0}) with RUN_DEBUG_NODES on pulls in the debug nodes {sorted(ids0[i] for i in pulled)}; with the same calls listed in the "
+                                     f"order {[ids0[i] for i in diff[0]]} it pulls in {sorted(ids0[i] for i in diff[1])}: the selection depends on the order of declaration"),
+                                  c, (), None, prog.source())
             sel = set(sel) | pulled
         except H.HangDetected:
             H.disarm_watchdog()
